@@ -563,7 +563,10 @@ class C06e(C06c):
         base = C06c.configs(self, tier)
         if tier == 'quick':
             return [c for c in base if not c['end'] or (c['file'] == 0 and c['line'] == 6)]
-        return base
+        # thorough: every cursor of every program; ranges on the expression-rich lines (the native inference that
+        # extract_function needs per path makes the full range space of all four programs a multi-hour run)
+        lines = {0: (2, 3, 4, 6), 1: (2, 3), 2: (4, 7, 9), 3: (4, 8)}
+        return [c for c in base if not c['end'] or c['line'] in lines[c['file']]]
 
     def scenario(self, ctx, cfg):
         src = EXTRACT_CORPUS[cfg['file']]
